@@ -218,6 +218,24 @@ Section ABF.
     | r :: others => mkEW (e_w r) (e_z r) (czar_gather (map e_z ws)) :: others
     end.
 
+  (* the gather as replica_share_CZAR() performed it when sharing had been enabled by a script ("cv bias <name> share",
+     no "shared on" in the configuration) before the repair of round 4: the grids for the gathered data were still
+     aliases of replica 0's own z grids, so the sum landed in those *)
+  Definition czar_gather_step_alias (ws : list ewalker) : list ewalker :=
+    match ws with
+    | [] => []
+    | r :: others => let g := czar_gather (map e_z ws) in mkEW (e_w r) g g :: others
+    end.
+
+  (* restart of a walker of shared eABF: the state holds (and read_state_data() reads back) the three grids of shared
+     ABF with the snapshot, and the z grids; the gathered grids are rebuilt by the next gather *)
+  Definition ew_restart (t : Z) (w : ewalker) : ewalker := mkEW (w_restart t (e_w w)) (e_z w) (e_gz w).
+
+  (* restart of a walker whose sharing had been enabled by a script, as read_state_data() performed it before the
+     repair of round 4: the run is configured without "shared on", the local_* and last_* sections of the state
+     were not read: snapshot and local grids start from zero, the global grids hold the restored collective data *)
+  Definition w_restart_unshared (t : Z) (w : walker) : walker := mkW (wG w) grid0 grid0 t.
+
   (* ---- specification side: the sampling history, kept per walker as
      (samples already exchanged, samples collected since the last exchange) *)
   Definition sample := (Z * A)%type.
